@@ -435,7 +435,8 @@ class FnAnalyzer(ExprMixin, CallMixin):
         ik = self.index_kind(t.slice, st)
         key_only = ik == "key" and not (base.kinds & {"nd", "ma"})
         if base.kinds & ARRAYISH and not key_only:
-            self.site(t, "array", base.orig, why="subscript store into an array")
+            # a masked array item store writes data and mask
+            self.site(t, "array", base.orig | base.mask_orig, why="subscript store into an array")
         if base.kinds & CONTAINER or (key_only and base.kinds & {"any"}):
             self.container_mut(t, base, st, v)
             if isinstance(t.value, ast.Name) and t.value.id in st.env:
@@ -455,7 +456,8 @@ class FnAnalyzer(ExprMixin, CallMixin):
     def store_attr(self, base, attr, v, node, st, dynamic=False):
         if base.kinds & ARRAYISH and not dynamic:
             if attr in T.ARR_MUTATE_ATTR_STORES:
-                self.site(node, "array", base.orig,
+                self.site(node, "array", base.mask_orig if attr in ("mask", "_mask", "recordmask")
+                          else (base.orig | base.mask_orig),
                           why="attribute store .%s writes array memory in place%s"
                               % (attr, " (a masked array created with copy=False shares its mask)"
                                  if attr == "mask" else ""))
@@ -504,7 +506,8 @@ class FnAnalyzer(ExprMixin, CallMixin):
         if isinstance(t, ast.Name):
             cur = self.lookup(t.id, st, t)
             if cur.kinds & ARRAYISH:
-                self.site(t, "array", cur.orig, why="augmented assignment on an array operates in place")
+                self.site(t, "array", cur.orig | cur.mask_orig,
+                          why="augmented assignment on an array operates in place")
             if cur.kinds & {"list", "dict", "set"}:
                 self.container_mut(t, cur, st, rhs.element())
                 cur = st.env.get(t.id, cur)
@@ -524,10 +527,10 @@ class FnAnalyzer(ExprMixin, CallMixin):
             kind = None
             key_only = ik == "key" and not (base.kinds & {"nd", "ma"})
             if base.kinds & ARRAYISH and not key_only:
-                o |= base.orig
+                o |= base.orig | base.mask_orig
                 kind = "array"
             if cur.kinds & ARRAYISH:
-                o |= cur.orig
+                o |= cur.orig | cur.mask_orig
                 kind = "array"
             if kind:
                 self.site(t, "array", o, why="augmented assignment on an array element/slice "
